@@ -19,6 +19,7 @@ Hypotheses that appear and why:
 import SwV.Lemmas.C17b
 import SwV.Lemmas.C17c
 import SwV.Lemmas.C17d
+import SwV.Lemmas.C17e
 import SwV.Gen.C17
 namespace SwV.Props.C17
 open SwV.Model.C17 SwV.Spec.C17 SwV.Lemmas.C17
@@ -628,14 +629,117 @@ example : (readAtF (fun _ => false) (fun f i => f * 10 + i) (viewFromChunks [.da
   rw [hr, hsrt]
   decide
 
-/-! ### StreamContent (known finding `StreamContent/hole-not-zero-filled`)
+/-! ### StreamContent (finding `StreamContent/hole-not-zero-filled`, repaired in /repo: the gaps are written as zeros)
 
-The full statement — StreamContent(offset,size) writes the content bytes of [offset, offset+size) —
-is FALSE of the code: the views are written back to back, a hole between them is not filled. -/
+Before the repair the views were written back to back (a sparse file streamed short, every byte after the first hole
+shifted); the theorems below are about the repaired loop `streamLoop` and hold without a no-hole hypothesis. -/
 
-/-- witness: chunks [0,2) and [4,6); the window [0,6) has 6 content bytes, the stream has 4 -/
-theorem streamContent_drops_holes :
-    (streamContent (fun f i => f * 10 + i) [.data ⟨0, 2, 1, 1, 1⟩, .data ⟨4, 2, 2, 2, 2⟩] 0 6).length = 4 := by
+/-- STREAM THEOREM (bounded window — what the filer's HTTP read handler calls with the Content-Length it promised).
+    For every chunk tree, every window [offset, offset+size) with size ≠ MaxInt64 and every admissible sort order:
+    StreamContent writes exactly `size` bytes, byte i being the byte of a NEWEST chunk covering offset+i, or 0 where no
+    chunk covers it (holes before, between and after the chunks). -/
+theorem streamContent_eq_overlay (data : Nat → Nat → Nat) (ns : List Node) (hw : wellFormed ns = true) (offset size : Nat)
+    (hsz : size ≠ maxInt64) (order : List Chunk) (ho : IsOrderOf order offset (offset + size) ns) :
+    let out := streamLoop data (streamStop offset size) (viewsOfOrder order offset size) offset
+    out = (List.range' offset size).map (viewByte data (viewsOfOrder order offset size)) ∧
+    out.length = size ∧
+    ∀ i, i < size → ByteOk data (flatten ns) (offset + i) (out.getD i 0) := by
+  have hstop : viewStop offset size = offset + size := by simp [viewStop, hsz]
+  have hss : streamStop offset size = offset + size := by simp [streamStop, hsz]
+  obtain ⟨hs, hwin, _⟩ := views_eq_overlay ns hw offset size hstop order ho
+  have key := streamLoop_spec data (offset + size) _ offset hs (fun w h => ⟨(hwin w h).2.1, (hwin w h).2.2⟩) (Nat.le_add_right _ _)
+  rw [Nat.add_sub_cancel_left] at key
+  intro out
+  have hout : out = (List.range' offset size).map (viewByte data (viewsOfOrder order offset size)) := by
+    show streamLoop data (streamStop offset size) _ offset = _; rw [hss]; exact key
+  refine ⟨hout, by rw [hout]; simp, ?_⟩
+  intro i hi
+  rw [hout]
+  simp only [List.getD_eq_getElem?_getD, List.getElem?_map, List.getElem?_range' hi, Option.map_some, Option.getD_some, Nat.one_mul]
+  exact viewByte_ok data ns hw offset size hstop order ho (offset + i) (by omega) (by omega)
+
+example : (5 : Nat) ≠ maxInt64 := by decide
+
+/-- the same for the model's own order, i.e. for what `streamContent` computes -/
+theorem streamContent_eq_overlay_model (data : Nat → Nat → Nat) (ns : List Node) (hw : wellFormed ns = true) (offset size : Nat)
+    (hsz : size ≠ maxInt64) :
+    streamContent data ns offset size = (List.range' offset size).map (viewByte data (viewFromChunks ns offset size)) ∧
+    (streamContent data ns offset size).length = size ∧
+    ∀ i, i < size → ByteOk data (flatten ns) (offset + i) ((streamContent data ns offset size).getD i 0) :=
+  streamContent_eq_overlay data ns hw offset size hsz _ (model_order offset (offset + size) ns)
+
+/-- STREAM THEOREM (whole file: offset 0, size MaxInt64 — fs.cat, filer.cat, ReadEntry, the meta-event reader).
+    The stream is the content of [0, E), E = the largest end of a non-empty chunk: every byte the newest chunk's, 0 in holes. -/
+theorem streamContent_whole_eq_overlay (data : Nat → Nat → Nat) (ns : List Node) (hw : wellFormed ns = true)
+    (hmax : ∀ c ∈ flatten ns, c.off + c.size ≤ maxInt64)
+    (order : List Chunk) (ho : IsOrderOf order 0 maxInt64 ns) :
+    let out := streamLoop data (streamStop 0 maxInt64) (viewsOfOrder order 0 maxInt64) 0
+    let E := extent ((flatten ns).filter fun c => decide (0 < c.size))
+    out = (List.range' 0 E).map (viewByte data (viewsOfOrder order 0 maxInt64)) ∧
+    out.length = E ∧
+    ∀ i, i < E → ByteOk data (flatten ns) i (out.getD i 0) := by
+  have ho' : IsOrderOf order 0 (0 + maxInt64) ns := by simpa using ho
+  have hst : viewStop 0 maxInt64 = 0 + maxInt64 := by decide
+  have hss : streamStop 0 maxInt64 = 0 := by decide
+  obtain ⟨hs, hwin, hsem⟩ := views_eq_overlay ns hw 0 maxInt64 hst order ho'
+  have hge := streamEnd_ge (viewsOfOrder order 0 maxInt64) 0
+  have hE : streamEnd (viewsOfOrder order 0 maxInt64) 0 = extent ((flatten ns).filter fun c => decide (0 < c.size)) := by
+    unfold extent
+    apply Nat.le_antisymm
+    · apply streamEnd_le _ _ 0 hs _ (Nat.zero_le _)
+      intro w h
+      refine ⟨Nat.zero_le _, ?_⟩
+      obtain ⟨h0, _, h2⟩ := hwin w h
+      obtain ⟨c, hn, _⟩ := (hsem (w.logic + w.size - 1) (Nat.zero_le _) (by omega)).1 w h (by unfold vcov; omega)
+      have hcov := hn.2.1
+      unfold covers at hcov
+      have := (le_extent ((flatten ns).filter fun c => decide (0 < c.size)) 0).2 c
+        (List.mem_filter.2 ⟨hn.1, by simp; omega⟩)
+      omega
+    · apply extent_le _ _ 0 (Nat.zero_le _)
+      intro c hc
+      obtain ⟨hc1, hc2⟩ := List.mem_filter.1 hc
+      have hpos : 0 < c.size := by simpa using hc2
+      have hm := hmax c hc1
+      apply Classical.byContradiction
+      intro hcon
+      have hnone : ∀ w ∈ viewsOfOrder order 0 maxInt64, ¬ vcov w (c.off + c.size - 1) := by
+        intro w h hv
+        have := hge.2 w h
+        unfold vcov at hv
+        omega
+      exact (hsem (c.off + c.size - 1) (Nat.zero_le _) (by omega)).2 hnone c hc1 (by unfold covers; omega)
+  have key := streamLoop_open data _ 0 hs (fun w _ => Nat.zero_le _)
+  rw [hE, Nat.sub_zero] at key
+  have hEmax : extent ((flatten ns).filter fun c => decide (0 < c.size)) ≤ maxInt64 := by
+    unfold extent
+    exact extent_le _ _ 0 (Nat.zero_le _) (fun c hc => hmax c (List.mem_filter.1 hc).1)
+  intro out E
+  have hout : out = (List.range' 0 E).map (viewByte data (viewsOfOrder order 0 maxInt64)) := by
+    show streamLoop data (streamStop 0 maxInt64) _ 0 = _; rw [hss]; exact key
+  refine ⟨hout, by rw [hout]; simp [E], ?_⟩
+  intro i hi
+  rw [hout]
+  simp only [List.getD_eq_getElem?_getD, List.getElem?_map, List.getElem?_range' hi, Option.map_some, Option.getD_some, Nat.one_mul]
+  have := viewByte_ok data ns hw 0 maxInt64 hst order ho' (0 + i) (Nat.zero_le _) (by omega)
+  simpa using this
+
+theorem streamContent_whole_eq_overlay_model (data : Nat → Nat → Nat) (ns : List Node) (hw : wellFormed ns = true)
+    (hmax : ∀ c ∈ flatten ns, c.off + c.size ≤ maxInt64) :
+    let E := extent ((flatten ns).filter fun c => decide (0 < c.size))
+    streamContent data ns 0 maxInt64 = (List.range' 0 E).map (viewByte data (viewFromChunks ns 0 maxInt64)) ∧
+    (streamContent data ns 0 maxInt64).length = E ∧
+    ∀ i, i < E → ByteOk data (flatten ns) i ((streamContent data ns 0 maxInt64).getD i 0) := by
+  have ho : IsOrderOf (sortChunks (resolveList 0 (0 + maxInt64) ns)) 0 maxInt64 ns := by
+    simpa using model_order 0 (0 + maxInt64) ns
+  exact streamContent_whole_eq_overlay data ns hw hmax _ ho
+
+example : ∀ c ∈ flatten [.data ⟨0, 2, 1, 1, 1⟩, .data ⟨4, 2, 2, 2, 2⟩], c.off + c.size ≤ maxInt64 := by
+  intro c hc; simp [flatten] at hc; rcases hc with rfl | rfl <;> simp [maxInt64]
+
+/-- the former witness of the finding (chunks [0,2) and [4,6), window [0,6)), now with the hole zero-filled -/
+theorem streamContent_fills_holes :
+    streamContent (fun f i => f * 10 + i) [.data ⟨0, 2, 1, 1, 1⟩, .data ⟨4, 2, 2, 2, 2⟩] 0 6 = [10, 11, 0, 0, 20, 21] := by
   have hr : resolveList 0 (0 + 6) [.data ⟨0, 2, 1, 1, 1⟩, .data ⟨4, 2, 2, 2, 2⟩] = [⟨0, 2, 1, 1, 1⟩, ⟨4, 2, 2, 2, 2⟩] := by
     simp [resolveList, resolveNode, outside]
   have hsrt : sortChunks [⟨0, 2, 1, 1, 1⟩, ⟨4, 2, 2, 2, 2⟩] = [⟨0, 2, 1, 1, 1⟩, ⟨4, 2, 2, 2, 2⟩] :=
@@ -644,28 +748,24 @@ theorem streamContent_drops_holes :
   rw [hr, hsrt]
   decide
 
-/-- `_partial`: on a window without holes (hypothesis = the complement of the known finding's class)
-    StreamContent writes exactly `size` bytes, byte i being a legal content byte of position offset+i -/
-theorem streamContent_partial (data : Nat → Nat → Nat) (ns : List Node) (hw : wellFormed ns = true) (offset size : Nat)
-    (hstop : viewStop offset size = offset + size)
+/-- the repair changes nothing for dense windows: without a hole in [offset, offset+size) the repaired loop writes
+    exactly the back-to-back concatenation of the views, which is what the code wrote before the repair -/
+theorem streamContent_dense_unchanged (data : Nat → Nat → Nat) (ns : List Node) (hw : wellFormed ns = true) (offset size : Nat)
+    (hsz : size ≠ maxInt64)
     (hnh : ∀ p, offset ≤ p → p < offset + size → ∃ c ∈ flatten ns, covers c p) :
-    streamContent data ns offset size = (List.range' offset size).map (viewByte data (viewFromChunks ns offset size)) ∧
-    ∀ p, offset ≤ p → p < offset + size → ByteOk data (flatten ns) p (viewByte data (viewFromChunks ns offset size) p) := by
+    streamContent data ns offset size =
+      (viewFromChunks ns offset size).flatMap fun v => (List.range' v.off v.size).map (data v.fid) := by
+  have hstop : viewStop offset size = offset + size := by simp [viewStop, hsz]
   have ho := model_order offset (offset + size) ns
   obtain ⟨h1, h2, h3⟩ := views_eq_overlay ns hw offset size hstop _ ho
-  constructor
-  · unfold streamContent
-    rw [viewFromChunks_eq]
-    have := stream_of_contiguous data (offset + size) _ offset h1 h2 (by
-      intro p hp1 hp2
-      apply Classical.byContradiction
-      intro hcon
-      obtain ⟨c, hc, hcov⟩ := hnh p hp1 hp2
-      exact (h3 p hp1 hp2).2 (fun w hw' hv => hcon ⟨w, hw', hv⟩) c hc hcov)
-    rw [this, Nat.add_sub_cancel_left]
-  · intro p hp1 hp2
-    rw [viewFromChunks_eq]
-    exact viewByte_ok data ns hw offset size hstop _ ho p hp1 hp2
+  rw [(streamContent_eq_overlay_model data ns hw offset size hsz).1, viewFromChunks_eq]
+  have := stream_of_contiguous data (offset + size) _ offset h1 h2 (by
+    intro p hp1 hp2
+    apply Classical.byContradiction
+    intro hcon
+    obtain ⟨c, hc, hcov⟩ := hnh p hp1 hp2
+    exact (h3 p hp1 hp2).2 (fun w hw' hv => hcon ⟨w, hw', hv⟩) c hc hcov)
+  rw [this, Nat.add_sub_cancel_left]
 
 example : ∀ p, 0 ≤ p → p < 0 + 2 → ∃ c ∈ flatten [.data ⟨0, 2, 1, 1, 1⟩], covers c p := by
   intro p _ h; exact ⟨⟨0, 2, 1, 1, 1⟩, by simp [flatten], by unfold covers; simp; omega⟩
@@ -690,5 +790,10 @@ theorem bridge_max (a b : Nat) : SwV.Gen.C17.max (a : Int) (b : Int) = ((Nat.max
 
 /-- MaybeManifestize's merge factor is positive (the batching loop terminates; `manifestize` is stated for every k) -/
 theorem bridge_manifest_batch : 0 < SwV.Gen.C17.ManifestBatch := by decide
+
+/-- the source of StreamContent and of its zero writer is the text the model `streamLoop` was written against
+    (the `fix:` zero-fill version); an edit of either function breaks this obligation -/
+theorem bridge_stream_pins :
+    SwV.Gen.C17.src_StreamContent = "617969968f3cefe5" ∧ SwV.Gen.C17.src_writeZero = "b1b4e7d84f01ac68" := by decide
 
 end SwV.Props.C17
